@@ -129,3 +129,11 @@ META["C09"] = dict(
     note="Trusts the environment/network/graphsync doubles; the real transport is used for the close paths.",
     technique="runtime monitoring with fault injection: exactly-once counters on recorded cleanup/un-protect calls, quiescence-based hang detection on a virtual clock",
 )
+
+META["C10"] = dict(
+    text=("Held on the enumerated product role x reopened x previous-request state x progress with PRNG voucher/validator/initiative choices: relational before/after diff, decoded "
+          "re-issued messages, graphsync call order by global stamps, extension payloads, all against the real manager and real transport."),
+    design_ref="DESIGN.md §2 C10",
+    note="Trusts the graphsync double's call stamps and the recording network/validator/datastore doubles.",
+    technique="runtime monitoring: relational before/after oracle + ordering oracle over the recorded graphsync/network call log of the real transport",
+)
